@@ -30,6 +30,8 @@ MUTATION_CHOICES = lambda seq: isinstance(seq[0], tuple)      # noqa: E731
 def own_language(name, program):
     if name.startswith('generated/'):
         return name.split('/')[1]
+    if name.startswith('template/groovy-'):
+        return 'groovy'
     return 'kotlin'         # the hand-built fixtures use the kotlin built-ins
 
 
@@ -152,6 +154,77 @@ def h_type_params_count(eng, lang):
     return obs
 
 
+class _LoopBudget(Exception):
+    pass
+
+
+def h_processor_loop(eng, T):
+    """the driver's transformation loop terminates: the real ProgramProcessor (schedule, can_transform, transform_program,
+    get_transformations) under the real hephaestus.process_cp_transformations, with a stand-in transformation whose outcome
+    (changed the program / changed nothing) is symbolic per application.  Every scheduled transformation is applied exactly
+    once, whatever it reports."""
+    import argparse
+    from vlib.props.C15 import H
+    from src.modules.processor import ProgramProcessor
+    from src import utils
+    n = int(eng.fresh_int(0, T, 'scheduled_transformations'))
+    calls = []
+
+    class StubTransformation:
+        def __init__(self, program, language, logger, options):
+            self.program = program
+            self.is_transformed = False
+
+        @classmethod
+        def get_name(cls):
+            return 'TypeErasure'
+
+        def transform(self):
+            calls.append(1)
+            if len(calls) > 3 * T + 3:
+                raise _LoopBudget()
+            self.is_transformed = bool(eng.fresh_bool('transformation_changed_the_program'))
+
+        def result(self):
+            return self.program
+
+        def preserve_correctness(self):
+            return True
+    args = argparse.Namespace(transformation_types=['TypeErasure'], transformations=n, transformation_schedule=None, log=False,
+                              debug=False, language='kotlin', options={'TypeErasure': {}, 'Generator': {}}, replay=None,
+                              name='sess', test_directory='/nonexistent-vcheck')
+    saved_cp = ProgramProcessor.CP_TRANSFORMATIONS
+    saved = (H.utils.translate_program, H.save_program, H.cli_args.keep_all)
+    ProgramProcessor.CP_TRANSFORMATIONS = {'TypeErasure': StubTransformation}
+    H.utils.translate_program = lambda translator, program: 'text'
+    H.save_program = lambda program, text, path: None
+    H.cli_args.keep_all = False
+    case = dict(scheduled=n)
+    obs = []
+    try:
+        from vlib.symrandom import installed as _inst
+        with _inst(eng):
+            proc = ProgramProcessor(1, args)
+        try:
+            H.process_cp_transformations(1, '/nonexistent-vcheck/d', H.TRANSLATORS['kotlin']('src.pkg', {}), proc, object(), 'pkg')
+            done = True
+        except _LoopBudget:
+            done = False
+        case.update(applications=len(calls), recorded=len(proc.get_transformations()))
+        obs.append(Ob('driver-loop|terminates', done, case))
+        if done:
+            obs.append(Ob('driver-loop|every-scheduled-transformation-applied-exactly-once', len(calls) == n, case))
+            obs.append(Ob('driver-loop|applied-transformations-recorded', len(proc.get_transformations()) == n and not proc.can_transform(), case))
+    finally:
+        ProgramProcessor.CP_TRANSFORMATIONS = saved_cp
+        H.utils.translate_program, H.save_program, H.cli_args.keep_all = saved
+    eng.event('driver-loop')
+    if n and len(calls) >= 1:
+        eng.event('driver-loop-with-transformations')
+    eng.notes['sample'] = case
+    return obs
+
+
 OUT = ('termination and nesting bound of whole Generator.generate() runs (only the recursion measure of the units is decided); '
        'wall-clock timeouts of the visitors; programs outside the families; random draws after the first N of the mutation')
 
@@ -182,6 +255,14 @@ def jobs(tier):
                        stubs=['src.utils.random -> symbolic RNG (first 4 draws; later draws take the first element)'],
                        bounds='count in {None, 1..4}, max_type_params in 1..4 with count <= max_type_params or count == 4 '
                               '(precondition: the request fits the limit, or is the Function3 special case)', outside=OUT))
+    from src.modules.processor import ProgramProcessor
+    out.append(Job('driver-transformation-loop', h_processor_loop, dict(T=3), split_depth=3,
+                   functions=[ProgramProcessor.transform_program, ProgramProcessor.can_transform, ProgramProcessor.get_transformations,
+                              ProgramProcessor._get_transformation_schedule],
+                   require_events=['driver-loop', 'driver-loop-with-transformations'], budget_s=300,
+                   stubs=['the transformation class -> stand-in whose outcome (changed / changed nothing) is symbolic per application',
+                          'translate_program, save_program -> no-ops'],
+                   bounds='0..3 scheduled transformations, every outcome of every application; loop budget 12 applications', outside=OUT))
     out.append(Job('pipeline-stages', h_pipeline, dict(tier=tier, sym_draws=1 if tier == 'quick' else 2), split_depth=2,
                    functions=[P.TypeErasure.visit_func_decl, P.TypeOverwriting.visit_func_decl], require_events=['pipeline'],
                    budget_s=2400, crosscheck_every=100, setup=lambda t=tier: members(t),
